@@ -9,10 +9,11 @@
    (mm -> cm with the monthly factor, PAR = radiation / 2, wind floor 0.5, sentinel of optional
    radiation/precipitation -> 0, everything else unchanged; a present average temperature
    unchanged); [fix_minmax] = LoadYear's swap of tmin/tmax when tmin > tmax + 0.5. *)
-From Coq Require Import ZArith List Bool Floats.
-From Hermes Require Import Num Util Calendar DateModel WeatherModel WeatherProofs CtrlModel CtrlProofs AlignProofs C04Witness.
+From Coq Require Import ZArith List Bool Ascii String Floats.
+From Hermes Require Import Num Util Calendar DateModel WeatherModel WeatherProofs CtrlModel CtrlProofs AlignProofs WeatherTokModel WeatherTokProofs C04Witness.
 Import ListNotations.
 Open Scope Z_scope.
+Set Warnings "-inexact-float".
 
 (* calendar_lockstep: when every loaded year has as many records as the civil year has days, the
    loop's (J, TAG) is the civil (year, day of the year) of BEGINN + k, for every k *)
@@ -39,18 +40,18 @@ Theorem C04_loader_places_multi : forall (T : Type) (NT : Num T) (raw : Z -> Z -
   ya <= sy < ya + Z.of_nat n -> 1 <= nslots ->
   exists st, read_multi none corr sy nslots (flat_map (block raw) (zrange ya n)) = Some st /\
     forall y, sy <= y < sy + Z.min (ya + Z.of_nat n - sy) nslots ->
-      exists s, find_year st y = Some s /\ s_maxd s = ylen y /\ length (s_cells s) = 366%nat /\
+      exists s, find_year st y = Some s /\ s_maxd s = ylen y /\ List.length (s_cells s) = 366%nat /\
                 forall d, 1 <= d <= ylen y ->
                   normalised none corr y d (raw y d) (nth (Z.to_nat (d - 1)) (s_cells s) wzero).
 Proof. exact @loader_places_multi_lemma. Qed.
 
 (* loader_places, per-year layout (day-of-year column): a complete year file *)
 Theorem C04_loader_places_year : forall (T : Type) (NT : Num T) (raw : Z -> Z -> wrec T) none corr y (st : store T),
-  length st = 1%nat -> wf st ->
+  List.length st = 1%nat -> wf st ->
   exists st' s,
     wetterk none corr y (Some (year_recs raw y)) st = Some (st', true) /\
-    length st' = 1%nat /\ wf st' /\
-    find_year st' y = Some s /\ s_maxd s = ylen y /\ length (s_cells s) = 366%nat /\
+    List.length st' = 1%nat /\ wf st' /\
+    find_year st' y = Some s /\ s_maxd s = ylen y /\ List.length (s_cells s) = 366%nat /\
     forall d, 1 <= d <= ylen y -> normalised none corr y d (raw y d) (nth (Z.to_nat (d - 1)) (s_cells s) wzero).
 Proof. exact @loader_places_year_lemma. Qed.
 
@@ -61,7 +62,7 @@ Theorem C04_alignment_multi : forall (T : Type) (NT : Num T) (raw : Z -> Z -> wr
   dy (civ beginn) = anjahr -> doy (civ beginn) = itag ->
   dy (civ ende) < ya + Z.of_nat n ->
   exists l, run_multi penman none corr (flat_map (block raw) (zrange ya n)) anjahr beginn itag ende = RunOk l /\
-            length l = ndays beginn ende /\ consumed_ok raw none corr l beginn.
+            List.length l = ndays beginn ende /\ consumed_ok raw none corr l beginn.
 Proof. exact @alignment_multi_lemma. Qed.
 
 (* alignment (C04), per-year layout *)
@@ -70,7 +71,7 @@ Theorem C04_alignment_peryear : forall (T : Type) (NT : Num T) (raw : Z -> Z -> 
   dy (civ beginn) = anjahr -> doy (civ beginn) = itag ->
   (forall y, anjahr <= y <= dy (civ ende) -> file_of fs y = Some (year_recs raw y)) ->
   exists l, run_peryear penman none corr fs anjahr beginn itag ende = RunOk l /\
-            length l = ndays beginn ende /\ consumed_ok raw none corr l beginn.
+            List.length l = ndays beginn ende /\ consumed_ok raw none corr l beginn.
 Proof. exact @alignment_peryear_lemma. Qed.
 
 (* layouts_agree: CSV and CZ readers build the same store from the same series when the CSV tavg
@@ -134,7 +135,7 @@ Proof. exact gap_to_jan1_is_error_refuted_lemma. Qed.
    mean — the neighbours being the civil day before and after: inside a year, from 31 December to
    1 January of the next year (F10 repaired) and from 1 January back to 31 December *)
 Theorem C04_gapfill_inside : forall (T : Type) (NT : Num T) (raw : Z -> Z -> wrec T) none yrz (st : store T) j y d,
-  wf st -> (yrz <= length st)%nat -> (j < yrz)%nat -> year_slot raw st j y -> 1 < d < ylen y ->
+  wf st -> (yrz <= List.length st)%nat -> (j < yrz)%nat -> year_slot raw st j y -> 1 < d < ylen y ->
   eqb (w_tavg (raw y d)) none = true ->
   eqb (w_tavg (raw y (d - 1))) none = false -> eqb (w_tavg (raw y (d + 1))) none = false ->
   w_tavg (cell (replace_missing none yrz st) j (Z.to_nat (d - 1)))
@@ -142,7 +143,7 @@ Theorem C04_gapfill_inside : forall (T : Type) (NT : Num T) (raw : Z -> Z -> wre
 Proof. exact @gapfill_inside_lemma. Qed.
 
 Theorem C04_gapfill_31dec : forall (T : Type) (NT : Num T) (raw : Z -> Z -> wrec T) none yrz (st : store T) j y,
-  wf st -> (yrz <= length st)%nat -> (S j < yrz)%nat -> year_slot raw st j y -> year_slot raw st (S j) (y + 1) ->
+  wf st -> (yrz <= List.length st)%nat -> (S j < yrz)%nat -> year_slot raw st j y -> year_slot raw st (S j) (y + 1) ->
   eqb (w_tavg (raw y (ylen y))) none = true ->
   eqb (w_tavg (raw y (ylen y - 1))) none = false -> eqb (w_tavg (raw (y + 1) 1)) none = false ->
   w_tavg (cell (replace_missing none yrz st) j (Z.to_nat (ylen y - 1)))
@@ -150,12 +151,219 @@ Theorem C04_gapfill_31dec : forall (T : Type) (NT : Num T) (raw : Z -> Z -> wrec
 Proof. exact @gapfill_31dec_lemma. Qed.
 
 Theorem C04_gapfill_1jan : forall (T : Type) (NT : Num T) (raw : Z -> Z -> wrec T) none yrz (st : store T) j y,
-  wf st -> (yrz <= length st)%nat -> (S j < yrz)%nat -> year_slot raw st j y -> year_slot raw st (S j) (y + 1) ->
+  wf st -> (yrz <= List.length st)%nat -> (S j < yrz)%nat -> year_slot raw st j y -> year_slot raw st (S j) (y + 1) ->
   eqb (w_tavg (raw (y + 1) 1)) none = true ->
   eqb (w_tavg (raw y (ylen y))) none = false -> eqb (w_tavg (raw (y + 1) 2)) none = false ->
   w_tavg (cell (replace_missing none yrz st) (S j) 0)
     = div (add (w_tavg (raw y (ylen y))) (w_tavg (raw (y + 1) 2))) two.
 Proof. exact @gapfill_1jan_lemma. Qed.
+
+(* ------------------------------------------------------------------ *)
+(* start / end inside a year (multi-year layouts): the series begins on day a of the start year,
+   m complete years follow, it ends on day b of the year after them: every stored year is found
+   with MaxYearDays = its last day, its days at their indices, normalised *)
+Theorem C04_loader_places_partial : forall (T : Type) (NT : Num T) (raw : Z -> Z -> wrec T) none corr sy nslots a m b,
+  1 <= a <= ylen sy -> 1 <= b <= ylen (sy + 1 + Z.of_nat m) -> Z.of_nat m + 2 <= nslots ->
+  let yl := sy + 1 + Z.of_nat m in
+  let lo := fun y => if y =? sy then a else 1 in
+  let hi := fun y => if y =? yl then b else ylen y in
+  exists st,
+    read_multi none corr sy nslots
+      (recs_of raw sy a (Z.to_nat (ylen sy - a + 1)) ++ flat_map (block raw) (zrange (sy + 1) m) ++ recs_of raw yl 1 (Z.to_nat b)) = Some st /\
+    forall y, sy <= y <= yl ->
+      exists s, find_year st y = Some s /\ s_maxd s = hi y /\ List.length (s_cells s) = 366%nat /\
+                forall d, lo y <= d <= hi y ->
+                  normalised none corr y d (raw y d) (nth (Z.to_nat (d - 1)) (s_cells s) wzero).
+Proof. exact @loader_places_partial_lemma. Qed.
+
+(* alignment when the series starts inside the start year, not after the first simulated day *)
+Theorem C04_alignment_partial_first_year : forall (T : Type) (NT : Num T) (raw : Z -> Z -> wrec T) none corr penman (st : store T) a anjahr yE beginn itag ende,
+  yE <= 2099 -> 1 <= a <= itag -> 1 <= beginn <= ende -> ende <= jan0 (yE + 1) ->
+  dy (civ beginn) = anjahr -> doy (civ beginn) = itag -> anjahr <= yE ->
+  (forall y, anjahr <= y <= yE ->
+     exists s, find_year st y = Some s /\ s_maxd s = ylen y /\ List.length (s_cells s) = 366%nat /\
+               forall d, (if y =? anjahr then a else 1) <= d <= ylen y ->
+                         okrec raw none corr y d (nth (Z.to_nat (d - 1)) (s_cells s) wzero)) ->
+  exists l, run_sim reload_multi penman st anjahr beginn itag ende = RunOk l /\
+            List.length l = ndays beginn ende /\ consumed_ok raw none corr l beginn.
+Proof. exact @alignment_store_lemma. Qed.
+
+(* ------------------------------------------------------------------ *)
+(* character level (WeatherTokModel): round trip of every well-formed line and file             *)
+
+(* Explode inverts "tokens joined by non-empty runs of separator characters" (leading and trailing
+   runs allowed) *)
+Theorem C04_tok_explode_roundtrip : forall seps lead toks,
+  allsep seps lead -> wf_toks seps toks -> explode seps (lead ++ print_toks toks) = map fst toks.
+Proof. exact explode_print. Qed.
+
+(* every spelling [+-]digits[.digits] | [+-].digits is read as the correctly rounded value *)
+Theorem C04_tok_number_roundtrip : forall (T : Type) (NT : Num T) d,
+  dlit_ok d -> dlit_small d -> parse_float (T:=T) (print_dlit d) = FOk (dval d).
+Proof. exact @parse_float_print. Qed.
+
+Theorem C04_tok_dates_roundtrip :
+  (forall t, 1901 <= dy t <= 2099 -> valid_date t = true -> parse_iso (print_iso t) = Some t) /\
+  (forall y d, 1901 <= y <= 2099 -> 1 <= d <= ylen y -> parse_yyyyddd (print_doy y d) = Some (y, d)).
+Proof. exact (conj parse_iso_print parse_yyyyddd_print). Qed.
+
+(* per-year layout: a line of ten (blank-padded) value tokens and the day-of-year token, any
+   further tokens, separators , or ; in any runs: the loop stores exactly these values *)
+Theorem C04_tok_year_line_roundtrip : forall (T : Type) (NT : Num T) lead toks (vals : list (str * dlit * str)) p1 jd p2 Tlast (s : slot T),
+  allsep SEPS_YEAR lead -> wf_toks SEPS_YEAR toks ->
+  List.length vals = 10%nat -> Forall padded_ok vals ->
+  firstn 10 (map fst toks) = map padded vals ->
+  nth_error (map fst toks) 10 = Some (p1 ++ jd ++ p2) ->
+  allspace p1 -> allspace p2 -> jd <> [] -> alldig jd ->
+  dnum 0 jd = Tlast + 1 -> 0 <= Tlast -> Tlast + 1 <= 366 ->
+  year_line (lead ++ print_toks toks) Tlast s
+  = TOk (Tlast + 1, put_slot s (s_jar s) (Tlast + 1) (year_rec (map (fun x => dval (snd (fst x))) vals))).
+Proof. exact @year_line_print. Qed.
+
+(* CSV layout: the eight standard columns in any order among any further columns *)
+Theorem C04_tok_csv_line_roundtrip : forall (T : Type) (NT : Num T) (none : T) sy lead toks t id itmin itavg itmax iprec irad iwind irh
+      dtmin dtavg dtmax dprec drad dwind drh,
+  allsep SEPS_CSV lead -> wf_toks SEPS_CSV toks ->
+  1901 <= dy t <= 2099 -> valid_date t = true -> sy <= dy t ->
+  nth_error (map fst toks) id = Some (print_iso t) ->
+  nth_error (map fst toks) itmin = Some (print_dlit dtmin) -> nth_error (map fst toks) itavg = Some (print_dlit dtavg) ->
+  nth_error (map fst toks) itmax = Some (print_dlit dtmax) -> nth_error (map fst toks) iprec = Some (print_dlit dprec) ->
+  nth_error (map fst toks) irad = Some (print_dlit drad) -> nth_error (map fst toks) iwind = Some (print_dlit dwind) ->
+  nth_error (map fst toks) irh = Some (print_dlit drh) ->
+  Forall (fun d => dlit_ok d /\ dlit_small d) [dtmin; dtavg; dtmax; dprec; drad; dwind; drh] ->
+  csv_line none (csv_header id itmin itavg itmax iprec irad iwind irh) sy (lead ++ print_toks toks)
+  = IRec (dy t, doy t, mkw (dval dtavg) (dval dtmin) (dval dtmax) (dval drh) (dval drad) (dval dwind) (dval dprec)) None.
+Proof. exact @csv_line_print. Qed.
+
+Theorem C04_tok_cz_line_roundtrip : forall (T : Type) (NT : Num T) (none : T) sy lead toks y d id itmin itmax irad iprec iwind irh dtmin dtmax drad dprec dwind drh,
+  allsep SEPS_CZ lead -> wf_toks SEPS_CZ toks ->
+  1901 <= y <= 2099 -> 1 <= d <= ylen y -> sy <= y ->
+  nth_error (map fst toks) id = Some (print_doy y d) ->
+  nth_error (map fst toks) itmin = Some (print_dlit dtmin) -> nth_error (map fst toks) itmax = Some (print_dlit dtmax) ->
+  nth_error (map fst toks) irad = Some (print_dlit drad) -> nth_error (map fst toks) iprec = Some (print_dlit dprec) ->
+  nth_error (map fst toks) iwind = Some (print_dlit dwind) -> nth_error (map fst toks) irh = Some (print_dlit drh) ->
+  Forall (fun d => dlit_ok d /\ dlit_small d) [dtmin; dtmax; drad; dprec; dwind; drh] ->
+  cz_line none (cz_header id itmin itmax irad iprec iwind irh) sy (lead ++ print_toks toks)
+  = IRec (cz_rec y d (mkw zero (dval dtmin) (dval dtmax) (dval drh) (dval drad) (dval dwind) (dval dprec))) None.
+Proof. exact @cz_line_print. Qed.
+
+(* files: lines ended by LF or CRLF (last line also without) are scanned back ... *)
+Theorem C04_tok_scan_lines : forall lines eol,
+  Forall line_ok lines -> eol_ok eol ->
+  scan_lines (List.concat (map (fun l => l ++ eol) lines)) = lines /\
+  forall last, line_ok last -> last <> [] ->
+    scan_lines (List.concat (map (fun l => l ++ eol) lines) ++ last) = lines ++ [last].
+Proof. exact scan_lines_both. Qed.
+
+(* ... and a whole per-year file (n <> 3 header lines) / multi-year file of well-formed lines is
+   read exactly as the record-level readers read its records *)
+Theorem C04_tok_year_file : forall (T : Type) (NT : Num T) none corr year hdr body (recs : list (Z * wrec T)) eol (st : store T),
+  Z.of_nat (List.length hdr) <> 3 ->
+  Forall line_ok (hdr ++ body) -> eol_ok eol ->
+  Forall2 (fun l x => line_spec l (fst x) (snd x)) body recs ->
+  wetterk_text none corr (Z.of_nat (List.length hdr)) year (Some (List.concat (map (fun l => l ++ eol) (hdr ++ body)))) st
+  = match wetterk none corr year (Some recs) st with
+    | Some (st', true) => TOk (st', no_meta)
+    | Some (st', false) => TErr (st', no_meta)
+    | None => TPanic
+    end.
+Proof. exact @wetterk_text_print. Qed.
+
+Theorem C04_tok_multi_file : forall (T : Type) (NT : Num T) none cz corr numheader sy nslots hl hdr body (recs : list (mrec T)) eol,
+  numheader = Z.of_nat (List.length hdr) + 1 -> (cz = true \/ numheader <> 3) ->
+  Forall line_ok (hl :: hdr ++ body) -> eol_ok eol -> 0 <= nslots ->
+  map (if cz then cz_line none (read_header hl) sy else csv_line none (read_header hl) sy) body = map (item_of sy) recs ->
+  match multi_text none cz corr numheader sy nslots (Some (List.concat (map (fun l => l ++ eol) (hl :: hdr ++ body)))),
+        read_multi none corr sy nslots recs with
+  | TOk (st1, m, _), Some st2 => st1 = st2 /\ m = no_meta
+  | TErr _, None => True
+  | _, _ => False
+  end.
+Proof. exact @multi_text_print. Qed.
+
+(* ------------------------------------------------------------------ *)
+(* malformed lines (outside the property's quantifier; stated so that the limit is visible)      *)
+
+(* a field with a character no float spelling uses, or an empty text, is a strconv error *)
+Theorem C04_tok_nonnumeric_is_error : forall (T : Type) (NT : Num T) (t : str),
+  t <> [] -> existsb (fun c => negb (float_char c)) t = true -> parse_float (T:=T) t = FErr.
+Proof. exact @nonnumeric_err. Qed.
+
+(* per-year layout: fewer than 11 tokens -> index panic; a non-numeric value column never yields a
+   record (log.Fatal) *)
+Theorem C04_tok_year_too_few : forall (T : Type) (NT : Num T) line Tlast (s : slot T),
+  (List.length (explode SEPS_YEAR line) <= 10)%nat -> year_line line Tlast s = TPanic.
+Proof. exact @year_line_too_few. Qed.
+
+Theorem C04_tok_year_nonnumeric : forall (T : Type) (NT : Num T) line Tlast (s : slot T) t i,
+  (i < 10)%nat -> nth_error (explode SEPS_YEAR line) i = Some t -> parse_float (T:=T) (trim_space t) = FErr ->
+  forall x, year_line line Tlast s <> TOk x.
+Proof. exact @year_line_nonnumeric. Qed.
+
+(* multi-year layouts: a required column index beyond the tokens / a non-numeric token in a
+   required column never yields a record *)
+Theorem C04_tok_csv_too_few : forall (T : Type) (NT : Num T) (none : T) h sy line i,
+  In i [col (h_wind h); col (h_prec h); col (h_tmax h); col (h_tmin h); col (h_tavg h); col (h_rh h)] ->
+  (List.length (explode SEPS_CSV line) <= i)%nat ->
+  forall r c, csv_line none h sy line <> IRec r c.
+Proof. exact @csv_line_too_few. Qed.
+
+Theorem C04_tok_csv_nonnumeric : forall (T : Type) (NT : Num T) (none : T) h sy line i t,
+  In i [col (h_wind h); col (h_prec h); col (h_tmax h); col (h_tmin h); col (h_tavg h); col (h_rh h)] ->
+  nth_error (explode SEPS_CSV line) i = Some t -> parse_float (T:=T) t = FErr ->
+  forall r c, csv_line none h sy line <> IRec r c.
+Proof. exact @csv_line_nonnumeric. Qed.
+
+(* an EMPTY field leaves no token: the line explodes to the other tokens, the later ones one
+   position to the left *)
+Theorem C04_tok_empty_field_vanishes : forall seps lead a t s b,
+  allsep seps lead -> wf_toks seps (a ++ (t, s) :: b) -> s <> [] ->
+  explode seps (lead ++ print_toks a ++ s ++ print_toks b) = map fst a ++ map fst b.
+Proof. exact explode_drops_empty. Qed.
+
+(* CHARACTERISATION: the CSV reader accepts a line as a record exactly when every required header
+   index holds a token strconv accepts; the record is made of the tokens at those indices.  It
+   panics exactly when a required index is beyond the tokens.  Hence a line that lost a field is a
+   SHIFTED record iff enough numeric tokens remain, an index panic / parse error otherwise. *)
+Theorem C04_tok_csv_line_characterised : forall (T : Type) (NT : Num T) (none : T) sy line id itmin itavg itmax iprec irad iwind irh dt t,
+  let toks := explode SEPS_CSV line in
+  let h := csv_header id itmin itavg itmax iprec irad iwind irh in
+  nth_error toks id = Some dt -> parse_iso dt = Some t -> sy <= dy t ->
+  (forall vtmin vtavg vtmax vprec vrad vwind vrh,
+     csv_line none h sy line = IRec (dy t, doy t, mkw vtavg vtmin vtmax vrh vrad vwind vprec) None <->
+     (pfield toks iwind = PV vwind /\ pfield toks iprec = PV vprec /\ pfield toks irad = PV vrad /\
+      pfield toks itmax = PV vtmax /\ pfield toks itmin = PV vtmin /\ pfield toks itavg = PV vtavg /\
+      pfield toks irh = PV vrh)) /\
+  (csv_line none h sy line = IPanic <->
+     exists i, In i [iwind; iprec; irad; itmax; itmin; itavg; irh] /\ (List.length toks <= i)%nat).
+Proof. exact @csv_line_characterised. Qed.
+
+(* a line whose date text does not parse is skipped without an error *)
+Theorem C04_tok_bad_date_skipped : forall (T : Type) (NT : Num T) (none : T) h sy line dt,
+  nth_error (explode SEPS_CSV line) (col (h_date_iso h)) = Some dt -> parse_iso dt = None ->
+  csv_line none h sy line = ISkip.
+Proof. exact @csv_bad_date_skipped. Qed.
+
+(* witnesses: empty field with a surplus column / decimal comma / CZ with CO2 column are read as
+   shifted records; without surplus token the CSV line is an index panic; the per-year layout
+   panics resp. ends in log.Fatal *)
+Theorem C04_tok_malformed_line_witnesses :
+  csv_line (-99)%float csv_hdr9 1983 (lstr_of "1983-01-07,12.8,,23.2,1.5,8.0,2.0,51.0,0.6"%string)
+    = IRec (1983, 7, mkw 23.2%float 12.8%float 1.5%float 0.6%float 2.0%float 51.0%float 8.0%float) None /\
+  csv_line (-99)%float (read_header (lstr_of "iso-date,tmin,tavg,tmax,precip,globrad,wind,relhumid"%string)) 1983
+           (lstr_of "1983-01-07,12.8,,23.2,1.5,8.0,2.0,51.0"%string) = IPanic /\
+  csv_line (-99)%float (read_header (lstr_of "iso-date;tmin;tavg;tmax;precip;globrad;wind;relhumid"%string)) 1983
+           (lstr_of "1983-01-28;-8,6;-3.1;1.7;0.0;5.5;2.2;61.0"%string)
+    = IRec (1983, 28, mkw 6%float (-8)%float (-3.1)%float 2.2%float 0.0%float 5.5%float 1.7%float) None /\
+  cz_line (-99)%float (read_header (lstr_of "@YYYYJJJ;TMIN;TMAX;RAD;PREC;WIND;RH;CO2"%string)) 1979
+          (lstr_of "1979123;2.9;;12.4;0.0;3.1;88.5;350"%string)
+    = IRec (cz_rec 1979 123 (mkw 0%float 2.9%float 12.4%float 350%float 0.0%float 88.5%float 3.1%float)) None /\
+  year_line (T:=float) (lstr_of "4.1;1;;-99;90;0.2;3.1;0;64;1;1"%string) 0 empty_slot = TPanic /\
+  year_line (T:=float) (lstr_of "4.1;1;5.6;n/a;90;0.2;3.1;0;64;1;1"%string) 0 empty_slot = TFatal.
+Proof.
+  exact (conj empty_field_shifted_lemma (conj empty_field_panic_lemma (conj decimal_comma_shifted_lemma
+        (conj cz_empty_field_shifted_lemma (conj year_empty_field_panic_lemma year_nonnumeric_fatal_lemma))))).
+Qed.
 
 (* non-vacuity: the hypothesis bundle of alignment is satisfiable, and a concrete complete run of
    the binary64 instance consumes the line of the right day across a year change with a leap day:
@@ -165,7 +373,7 @@ Definition nv_raw (y d : Z) : wrec float := wr (F.of_Z (y * 1000 + d)).
 Example C04_nonvacuous :
   dy (civ 30374) = 1984 /\ doy (civ 30374) = 59 /\ dy (civ 30683) = 1985 /\
   exists l, run_multi true (-99)%float [] (flat_map (block nv_raw) (zrange 1983 3)) 1984 30374 59 30683 = RunOk l /\
-            length l = 310%nat /\
+            List.length l = 310%nat /\
             nth_error (summary l) 1 = Some (30375, 59, 84, 1984060%float) /\     (* 29 Feb 1984 *)
             nth_error (summary l) 307 = Some (30681, 365, 84, 1984366%float) /\  (* 31 Dec 1984 *)
             nth_error (summary l) 308 = Some (30682, 0, 85, 1985001%float).      (* 1 Jan 1985 *)
@@ -192,3 +400,23 @@ Print Assumptions C04_gap_to_jan1_is_error_refuted.
 Print Assumptions C04_gapfill_inside.
 Print Assumptions C04_gapfill_31dec.
 Print Assumptions C04_gapfill_1jan.
+Print Assumptions C04_loader_places_partial.
+Print Assumptions C04_alignment_partial_first_year.
+Print Assumptions C04_tok_explode_roundtrip.
+Print Assumptions C04_tok_number_roundtrip.
+Print Assumptions C04_tok_dates_roundtrip.
+Print Assumptions C04_tok_year_line_roundtrip.
+Print Assumptions C04_tok_csv_line_roundtrip.
+Print Assumptions C04_tok_cz_line_roundtrip.
+Print Assumptions C04_tok_scan_lines.
+Print Assumptions C04_tok_year_file.
+Print Assumptions C04_tok_multi_file.
+Print Assumptions C04_tok_nonnumeric_is_error.
+Print Assumptions C04_tok_year_too_few.
+Print Assumptions C04_tok_year_nonnumeric.
+Print Assumptions C04_tok_csv_too_few.
+Print Assumptions C04_tok_csv_nonnumeric.
+Print Assumptions C04_tok_empty_field_vanishes.
+Print Assumptions C04_tok_csv_line_characterised.
+Print Assumptions C04_tok_bad_date_skipped.
+Print Assumptions C04_tok_malformed_line_witnesses.
